@@ -218,6 +218,35 @@ def r2_agreement(ck, cx, builds):
                 okh = okh or (ok1 and ok2)
             ck.ob('R2', cf.qn, 'MBAP header is parsed with the format and field binding it is built with', okh, detail='header-binding', loc=cx.floc(cf),
                   message='tcp checkFrame parses the header differently from buildPacket / populateResult')
+            # every legal MBAP length is accepted: 2 (unit + function code) .. 254 (unit + a 253-byte PDU)
+            from ..framermodel import framer_paths as _fpaths
+            from ..sym import constraints as _cons
+            _c, _f, _fps = _fpaths(cx, 'tcp')
+            lows, highs, ndel = [], [], 0
+            for fp in _fps:
+                for d in fp.deliveries:
+                    cfs = [t for i, t in fp.truths.get('checkFrame', []) if i < d]
+                    if not (cfs and cfs[-1] is True):
+                        continue
+                    ndel += 1
+                    lo, hi = None, None
+                    for ev in fp.path.ev[:d]:
+                        if ev.kind == 'cond' and ev.frame.func is not None and ev.frame.func.name == 'checkFrame':
+                            for c in _cons(ev._sub, ev.a, nz, env):
+                                if c[0] == 'ge' and set(k for k in c[1].t if k != ()) == {("self._header['len']",)}:
+                                    co, k0 = c[1].t[("self._header['len']",)], c[1].t.get((), 0)
+                                    if co == 1:       # len + k0 >= 0
+                                        lo = max(lo, -k0) if lo is not None else -k0
+                                    elif co == -1:    # -len + k0 >= 0
+                                        hi = min(hi, k0) if hi is not None else k0
+                    lows.append(lo)
+                    highs.append(hi)
+            ck.ob('R2', cf.qn, 'a frame with the smallest MBAP length (2) is accepted', bool(lows) and all(l is None or l <= 2 for l in lows),
+                  detail='mbap-length-lower-bound %s' % sorted(set(map(str, lows))), loc=cx.floc(cf))
+            ck.ob('R2', cf.qn, 'a frame with the largest MBAP length (254 = unit id + 253-byte PDU) is accepted', bool(highs) and all(h is None or h >= 254 for h in highs),
+                  detail='mbap-length-upper-bound %s' % sorted(set(map(str, highs))), loc=cx.floc(cf),
+                  message='tcp checkFrame accepts an MBAP length only up to %s: a maximum-size PDU (253 bytes, length field 254) is dropped'
+                          % sorted(set(h for h in highs if h is not None)))
             ck.ob('R2', pfn.qn, 'populateResult copies transaction, protocol and unit id', set(binds) == {'transaction_id', 'protocol_id', 'unit_id'},
                   detail='populate %s' % sorted(binds), loc=cx.floc(pfn))
         elif kind in ('rtu', 'ascii', 'binary'):
